@@ -100,11 +100,12 @@ def run (evs : List Event) : St := evs.foldl applyEvent St.init
 structure Obs where
   value : Option Int
   log : List Int                   -- `Undefined` deliveries are not recorded
-  calls : Nat
+  calls : Nat                      -- evaluations whose coroutine has started
   deriving Repr, DecidableEq
 
 def observe (s : St) (logFrom : Nat) : Obs :=
-  { value := s.cur, log := (s.log.drop logFrom).filterMap id, calls := s.nTasks }
+  { value := s.cur, log := (s.log.drop logFrom).filterMap id,
+    calls := ((List.range s.nTasks).filter fun t => s.pcs t != some .start).length }
 
 /-- result of evaluation `t`: evaluation 0 belongs to the construction, i+1 to the i-th `set` -/
 def resultsOf (evs : List Event) : List Int :=
